@@ -129,7 +129,7 @@ def lean_check_file(src: str, name: str, timeout=600) -> tuple[bool, str]:
         except OSError:
             pass
     out = r.stdout + r.stderr
-    ok = r.returncode == 0 and "error" not in out and "sorry" not in out
+    ok = r.returncode == 0 and not re.search(r"(^|\s)error:|: error|declaration uses 'sorry'", out)
     if ok:
         CACHE.mkdir(exist_ok=True)
         tag.write_text(out)
